@@ -66,6 +66,16 @@ for d in sorted(glob.glob(f'{V}/benign/*/')):
     out.append(f"| {m['id']} | {t.get('passed')}/{t.get('failed')} | {m.get('base_commit', '')[:7]} | {len(m.get('checks', {}))} | {', '.join(m.get('alarms', [])) or 'none'}{' - ' + verdict if verdict else ''} |")
 out.append(f"\n{nb} property-preserving changes, {nal} with an alarm. What each change does is in `benign/<id>/notes.md` (two changes per file).\n")
 
+am = f'{V}/sensitivity/automut.jsonl'
+if os.path.exists(am):
+    from collections import Counter
+    rows = [json.loads(l) for l in open(am)]
+    st = Counter(r['status'].split(':')[0] for r in rows)
+    by = Counter(r['status'].split(':')[1] for r in rows if r['status'].startswith('caught'))
+    surv = Counter(r['file'] for r in rows if r['status'] == 'survived')
+    out.append("### 12.4 Automatic mutants (`tools/automut.py`, `sensitivity/automut.jsonl`, reviewed in `sensitivity/automut_review.md`)\n")
+    out.append(f"{len(rows)} single-token mutants sampled over `/repo/src` (seed 1, stratified by file): {st.get('nocompile', 0)} do not compile, {st.get('repo_tests', 0)} are killed by the repository's own tests, {st.get('caught', 0)} pass those tests and are reported by a quick check ({', '.join(k + ' ' + str(v) for k, v in sorted(by.items()))}), {st.get('survived', 0)} pass those tests and survive ({', '.join(os.path.basename(k) + ' ' + str(v) for k, v in surv.most_common())}). Every survivor was read: all are equivalent to the original, equivalent within the stated tolerances (small ephemeris and refraction terms), or change behaviour that no property speaks about; the categories and the individual mutants are listed in the review file. Two of them (the flag of an interval-defined Isha) coincide with a seeded change of round 6 and are reported by the current C05.\n")
+
 text = '\n'.join(out)
 p = f'{V}/DESIGN.md'
 s = open(p).read()
